@@ -247,7 +247,7 @@ AMENDS = {'C02': [('text', 'a rejection triggers a product search for a concrete
   ('note', 'float32 rounding of the compiler is not modelled.', 'float32 rounding of the compiler is not modelled (generated scales are multiples of 1/8, exact in float); 2x2 component transforms are not modelled (glyph skipped, counted).'),
   ('text', 'complexFit on a random subset.', 'complexFit (as a literal or as an expression over glyph metrics) on a random subset, which is told to the checker: for those glyphs the occupied cells must cover every point even when the bitmap is empty.')],
  'C09': [('text', 'Tie: 38 constructed scenarios', 'fsm_failure_touches_nothing (an error found after the state machines are generated: exit 1, the destination neither opened nor removed). Tie: 51 constructed scenarios (incl. a state machine too large for the font, debug files for dotted output paths) and a write fault (file-size limit) at 15 positions of the output font, also inside the last tables; scenarios'),
-  ('text', 'Tie: 51 constructed scenarios', "Tie: 66 constructed scenarios (also: the compiler's own output as input font, every failure stage with -D, an error file that is one of the run's own files, an empty directory at the output path, an unknown code page)")],
+  ('text', 'Tie: 51 constructed scenarios', "Tie: 62 constructed scenarios (also: the compiler's own output as input font, every failure stage with -D, an error file that is one of the run's own files, an empty directory at the output path, an unknown code page)")],
  'C01': [('text', 'over nine program families', 'over nine program families (every third program refers to items by slot aliases declared on the left-hand side, the right-hand side or in the context)')]}
 for _k, _l in AMENDS.items():
     for _f, _a, _b in _l:
